@@ -17,11 +17,45 @@ func NewRequestHeaderInjector(headers []options.Header) (alice.Constructor, erro
 		return nil, fmt.Errorf("error building request header injector: %v", err)
 	}
 
+	protect := newProtectInjectedHeaders(headers)
 	strip := newStripHeaders(headers)
 	if strip != nil {
-		return alice.New(strip, headerInjector).Then, nil
+		return alice.New(strip, headerInjector, protect).Then, nil
 	}
-	return headerInjector, nil
+	return alice.New(headerInjector, protect).Then, nil
+}
+
+// newProtectInjectedHeaders removes the names of the injected headers from the
+// request's Connection header. The reverse proxy treats every header listed
+// there as hop-by-hop and deletes it just before forwarding, which would let
+// a client strip the values injected from its session.
+func newProtectInjectedHeaders(headers []options.Header) alice.Constructor {
+	injected := map[string]struct{}{}
+	for _, header := range headers {
+		injected[http.CanonicalHeaderKey(header.Name)] = struct{}{}
+	}
+
+	return func(next http.Handler) http.Handler {
+		return http.HandlerFunc(func(rw http.ResponseWriter, req *http.Request) {
+			if values := req.Header.Values("Connection"); len(values) > 0 {
+				kept := []string{}
+				for _, value := range values {
+					for _, token := range strings.Split(value, ",") {
+						token = strings.TrimSpace(token)
+						if _, ok := injected[http.CanonicalHeaderKey(token)]; ok || token == "" {
+							continue
+						}
+						kept = append(kept, token)
+					}
+				}
+				req.Header.Del("Connection")
+				if len(kept) > 0 {
+					req.Header.Set("Connection", strings.Join(kept, ", "))
+				}
+			}
+			next.ServeHTTP(rw, req)
+		})
+	}
 }
 
 func newStripHeaders(headers []options.Header) alice.Constructor {
